@@ -187,6 +187,13 @@ class DrvEngine : public sim::Engine {
     if (!sc.is_null()) sc.set("prop", prop);
     return sc;
   }
+  sim::Json baseline(const std::string& prop) override {
+    const drvsim::Property* p = drvsim::find_property(prop);
+    if (!p || !p->baseline) return sim::Json();
+    sim::Json sc = p->baseline();
+    sc.set("prop", prop);
+    return sc;
+  }
   uint64_t enumerated(const std::string& prop, const std::string& tier) override {
     const drvsim::Property* p = drvsim::find_property(prop);
     return p && p->enumerated ? p->enumerated(tier) : 0;
